@@ -67,7 +67,8 @@ G0(iv, dv, ev) ==
   [di |-> iv, dd |-> dv, do |-> Abs, env |-> ev, envRec |-> ev,
    fi |-> Static(iv), fd |-> Static(dv), fo |-> [st |-> "PLANNED", h |-> Abs],
    st |-> "PENDING", def |-> FALSE, cnt |-> 0, dyn |-> FALSE, hash |-> NoHash, job |-> NoJob,
-   drain |-> FALSE, raised |-> FALSE]
+   drain |-> FALSE, raised |-> FALSE,
+   su |-> {}]       \* (trace mode) files whose latest edit was made while a director was starting up
 
 InFlight(g) == g.job.k # "none"
 
@@ -328,8 +329,9 @@ Apply(h, e) ==
   CASE e.a = "init" -> <<"ok", [G0(e.di, e.dd, e.env) EXCEPT !.do = Cont(e.do), !.fi = [st |-> e.p.ist, h |-> e.p.ih],
                                  !.fd = [st |-> e.p.dst, h |-> e.p.dh], !.fo = [st |-> e.p.ost, h |-> Cont(e.p.oh)],
                                  !.envRec = e.p.envRec, !.st = e.p.st]>>
-    [] e.a = "edit" -> <<"ok", IF e.f = "i" THEN [h EXCEPT !.di = e.v] ELSE [h EXCEPT !.dd = e.v]>>
-    [] e.a = "edito" -> <<"ok", [h EXCEPT !.do = Cont(e.c)]>>
+    [] e.a = "edit" -> <<"ok", [(IF e.f = "i" THEN [h EXCEPT !.di = e.v] ELSE [h EXCEPT !.dd = e.v])
+                                 EXCEPT !.su = IF e.su THEN @ \cup {e.f} ELSE @ \ {e.f}]>>
+    [] e.a = "edito" -> <<"ok", [h EXCEPT !.do = Cont(e.c), !.su = IF e.su THEN @ \cup {"o"} ELSE @ \ {"o"}]>>
     [] e.a = "proc" -> <<"ok", DoProcStart([h EXCEPT !.job = NoJob], e.env)>>
     [] e.a = "phase" -> <<"ok", DoPhaseStart(h)>>
     \* Scheduler._derive_job: which job the dispatched step got
@@ -339,7 +341,12 @@ Apply(h, e) ==
     [] e.a = "settled" ->
          IF ~e.clean THEN <<"ok", h>>
          ELSE IF RefreshEn(h, "i") \/ RefreshEn(h, "d") \/ RefreshEn(h, "o")
-              THEN <<"stored_hashes_differ_from_the_tree_after_an_undisturbed_build", h>>
+              THEN \* shape of finding F31: every file that StepUp has not caught up with was last edited
+                   \* while a director was starting up (after the start-up scan hashed it, before the
+                   \* watcher existed)
+                   IF {f \in {"i", "d", "o"} : RefreshEn(h, f)} \subseteq h.su
+                   THEN <<"change_made_during_the_startup_scan_was_missed", h>>
+                   ELSE <<"stored_hashes_differ_from_the_tree_after_an_undisturbed_build", h>>
          ELSE IF h.st = "SUCCEEDED" /\ ~(h.di # 0 /\ h.dd # 0 /\ h.do = Gen(h.di, h.dd, h.env))
               THEN <<"succeeded_with_an_output_that_a_fresh_run_would_not_write", h>>
          ELSE <<"ok", h>>
